@@ -7,33 +7,400 @@ import SST.Proofs.Varint
 namespace SST.Proofs
 open SST Generated
 
-theorem close_exact (c : Compression) (ct : Nat) (ops : List AOp) (hc : CutsOk [] ops) :
-    let w := (runWriter c (WState.init ct) (concretize c [] ops)).1
-    w.close = fileHeader currentVersion ct ++ encAll c (survivors [] ops) ∧ w.cur = w.close.length := by
-  sorry
+theorem uvarintEnc_magic : uvarintEnc magicNumber = magicBytes := by
+  rw [magicNumber, uvarintEnc_ge 0x130691 (by decide), uvarintEnc_ge (0x130691 / 128) (by decide),
+    uvarintEnc_lt (0x130691 / 128 / 128) (by decide)]
+  decide
 
-theorem write_offsets (c : Compression) (ct : Nat) (rs : List GoBytes) :
-    (runWriter c (WState.init ct) (rs.map WOp.write)).2 = (List.range rs.length).map (offsetOf c rs) := by
-  sorry
+theorem uvarintEnc_len_le (k : Nat) : ∀ n, n < 2 ^ (7 * (k + 1)) → (uvarintEnc n).length ≤ k + 1 := by
+  induction k with
+  | zero =>
+    intro n hn
+    rw [uvarintEnc_lt n (by simpa using hn)]; simp
+  | succ k ih =>
+    intro n hn
+    by_cases h : n < 128
+    · rw [uvarintEnc_lt n h]; simp
+    · rw [uvarintEnc_ge n h]
+      have : n / 128 < 2 ^ (7 * (k + 1)) := by
+        apply Nat.div_lt_of_lt_mul
+        have : 2 ^ (7 * (k + 1 + 1)) = 128 * 2 ^ (7 * (k + 1)) := by
+          rw [show 7 * (k + 1 + 1) = 7 + 7 * (k + 1) by omega, Nat.pow_add]
+        omega
+      have := ih _ this
+      simp; omega
 
-theorem seq_roundtrip (c : Compression) (ct : Nat) (rs : List GoBytes)
-    (hl : LawfulC c) (hf : ∀ r ∈ rs, FitsRec c r) :
-    readAll c (fileHeader currentVersion ct ++ encAll c rs) = (rs, .eof) := by
-  sorry
+theorem uvarintEnc_len64 (n : Nat) (h : n < 2 ^ 64) : (uvarintEnc n).length ≤ 10 :=
+  uvarintEnc_len_le 9 n (by have : (2:Nat) ^ 64 ≤ 2 ^ (7 * (9 + 1)) := by decide
+                            omega)
 
-theorem readAt_offset (c : Compression) (ct : Nat) (rs : List GoBytes) (k : Nat) (hk : k < rs.length)
-    (hl : LawfulC c) (hf : ∀ r ∈ rs, FitsRec c r) :
-    readAt c (fileHeader currentVersion ct ++ encAll c rs) (offsetOf c rs k) = .ok rs[k] := by
-  sorry
+theorem uvarintEnc_len32 (n : Nat) (h : n < 2 ^ 32) : (uvarintEnc n).length ≤ 5 :=
+  uvarintEnc_len_le 4 n (by have : (2:Nat) ^ 32 ≤ 2 ^ (7 * (4 + 1)) := by decide
+                            omega)
+
+theorem uvarintEnc_len_pos (n : Nat) : 0 < (uvarintEnc n).length :=
+  List.length_pos_iff.mpr (uvarintEnc_ne_nil n)
+
+theorem headerBody_length (nf : Bool) (u c : Nat) :
+    (headerBody nf u c).length = 4 + (uvarintEnc u).length + (uvarintEnc c).length := by
+  simp [headerBody, magicBytes]; omega
+
+theorem encHeader_length (nf : Bool) (u c : Nat) :
+    (encHeader nf u c).length = 4 + (uvarintEnc u).length + (uvarintEnc c).length
+      + (uvarintEnc (crc32c (headerBody nf u c)).toNat).length := by
+  simp [encHeader, headerBody_length]
+
+theorem encHeader_length_le (nf : Bool) (u c : Nat) (hu : u < 2 ^ 64) (hc : c < 2 ^ 64) :
+    (encHeader nf u c).length ≤ recordHeaderMax := by
+  have h1 := uvarintEnc_len64 u hu
+  have h2 := uvarintEnc_len64 c hc
+  have h3 := uvarintEnc_len32 (crc32c (headerBody nf u c)).toNat (UInt32.toNat_lt _)
+  rw [encHeader_length, recordHeaderMax]; omega
+
+theorem encHeader_pos (nf : Bool) (u c : Nat) : 0 < (encHeader nf u c).length := by
+  rw [encHeader_length]; omega
+
+theorem readHeader_enc (w : Win) (nf : Bool) (u c : Nat) (t : Bytes) (hu : u < 2 ^ 64) (hc : c < 2 ^ 64)
+    (hw : w.bytes = encHeader nf u c ++ t) :
+    readHeader w = .ok { ulen := u, clen := c, isNil := nf, hlen := (encHeader nf u c).length } := by
+  have hcrc : (crc32c (headerBody nf u c)).toNat < 2 ^ 64 := by
+    have := UInt32.toNat_lt (crc32c (headerBody nf u c)); omega
+  have hm : magicNumber < 2 ^ 64 := by decide
+  have hw' : w.bytes = uvarintEnc magicNumber ++ ((if nf then 1 else 0) :: (uvarintEnc u ++ (uvarintEnc c ++
+      (uvarintEnc (crc32c (headerBody nf u c)).toNat ++ t)))) := by
+    rw [hw, encHeader, headerBody, uvarintEnc_magic]; simp
+  have hlen : (uvarintEnc magicNumber).length = 3 := by rw [uvarintEnc_magic]; rfl
+  have htake : w.bytes.take (3 + 1 + (uvarintEnc u).length + (uvarintEnc c).length) = headerBody nf u c := by
+    rw [hw, encHeader, List.append_assoc, List.take_left']
+    rw [headerBody_length]
+  unfold readHeader
+  rw [hw'] at htake ⊢
+  have hd : ∀ (l : Bytes), (uvarintEnc magicNumber ++ l).drop 3 = l := by
+    intro l; rw [← hlen, List.drop_left]
+  simp only [uvarintDec_enc _ _ hm, Win.map, hlen, bind, Except.bind, ne_eq, not_true_eq_false, if_false, hd]
+  simp only [uvarintDec_enc _ _ hu, List.drop_left, uvarintDec_enc _ _ hc, uvarintDec_enc _ _ hcrc, htake,
+    not_true_eq_false, if_false, pure, Except.pure]
+  rw [encHeader_length]
+  cases nf <;> simp <;> omega
+
+theorem fileWin_bytes (h x : Bytes) (hh : h.length ≤ recordHeaderMax) :
+    ∃ t, (fileWin (h ++ x)).bytes = h ++ t := by
+  unfold fileWin
+  split
+  · exact ⟨x.take (recordHeaderMax - h.length), by simp [List.take_append, List.take_of_length_le hh]⟩
+  · exact ⟨x, rfl⟩
+
+theorem mmapWin_bytes (h x : Bytes) (hh : h.length ≤ recordHeaderMax) :
+    ∃ t, (mmapWin (h ++ x)).bytes = h ++ t :=
+  ⟨x.take (recordHeaderMax - h.length), by simp [mmapWin, List.take_append, List.take_of_length_le hh]⟩
+
+theorem readHeader_fileWin (nf : Bool) (u c : Nat) (x : Bytes) (hu : u < 2 ^ 64) (hc : c < 2 ^ 64) :
+    readHeader (fileWin (encHeader nf u c ++ x)) =
+      .ok { ulen := u, clen := c, isNil := nf, hlen := (encHeader nf u c).length } := by
+  obtain ⟨t, ht⟩ := fileWin_bytes (encHeader nf u c) x (encHeader_length_le nf u c hu hc)
+  exact readHeader_enc _ nf u c t hu hc ht
+
+theorem readHeader_mmapWin (nf : Bool) (u c : Nat) (x : Bytes) (hu : u < 2 ^ 64) (hc : c < 2 ^ 64) :
+    readHeader (mmapWin (encHeader nf u c ++ x)) =
+      .ok { ulen := u, clen := c, isNil := nf, hlen := (encHeader nf u c).length } := by
+  obtain ⟨t, ht⟩ := mmapWin_bytes (encHeader nf u c) x (encHeader_length_le nf u c hu hc)
+  exact readHeader_enc _ nf u c t hu hc ht
+
+/-- decoding the stored payload gives the record back -/
+theorem decodePayload_stored (c : Compression) (r : Bytes) (hl : LawfulC c) :
+    decodePayload c (stored c r) = .ok r := by
+  cases c with
+  | none => rfl
+  | some cc => simp [decodePayload, stored, hl r]
+
+theorem expectedLen_enc (c : Compression) (nf : Bool) (r : Bytes) (hl : Nat) :
+    expectedLen c { ulen := r.length, clen := clenOf c r, isNil := nf, hlen := hl } = (stored c r).length := by
+  cases c <;> rfl
+
+theorem encRecord_pos (c : Compression) (r : GoBytes) : 0 < (encRecord c r).length := by
+  cases r with
+  | none => exact encHeader_pos _ _ _
+  | some r => simp only [encRecord, List.length_append]; have := encHeader_pos false r.length (clenOf c r); omega
+
+theorem readNextS_enc (c : Compression) (r : GoBytes) (rest : Bytes)
+    (hl : LawfulC c) (hf : FitsRec c r) :
+    readNextS c (encRecord c r ++ rest) = .ok (r, (encRecord c r).length) := by
+  cases r with
+  | none =>
+    simp only [encRecord, readNextS, readHeader_fileWin true 0 _ rest (by decide) hf]
+    simp
+  | some r =>
+    obtain ⟨h1, h2⟩ := hf
+    simp only [encRecord, readNextS, List.append_assoc, readHeader_fileWin false r.length _ _ h1 h2,
+      expectedLen_enc, List.drop_left]
+    by_cases h0 : (stored c r).length = 0
+    · have : stored c r = [] := List.eq_nil_of_length_eq_zero h0
+      have hd := decodePayload_stored c r hl
+      rw [this] at hd
+      simp [hd, this, Except.map]
+    · have hd := decodePayload_stored c r hl
+      simp [h0, hd, Except.map]
+
+theorem skipNextS_enc (c : Compression) (r : GoBytes) (rest : Bytes) (hf : FitsRec c r) :
+    skipNextS c (encRecord c r ++ rest) = .ok (encRecord c r).length := by
+  cases r with
+  | none =>
+    simp only [encRecord, skipNextS, readHeader_fileWin true 0 _ rest (by decide) hf]
+    simp
+  | some r =>
+    obtain ⟨h1, h2⟩ := hf
+    simp only [encRecord, skipNextS, List.append_assoc, readHeader_fileWin false r.length _ _ h1 h2,
+      expectedLen_enc]
+    simp
 
 theorem skip_eq_read_discard (c : Compression) (r : GoBytes) (rest : Bytes)
     (hl : LawfulC c) (hf : FitsRec c r) :
     skipNextS c (encRecord c r ++ rest) = .ok (encRecord c r).length ∧
-    readNextS c (encRecord c r ++ rest) = .ok (r, (encRecord c r).length) := by
-  sorry
+    readNextS c (encRecord c r ++ rest) = .ok (r, (encRecord c r).length) :=
+  ⟨skipNextS_enc c r rest hf, readNextS_enc c r rest hl hf⟩
+
+
+theorem uvarintDec_zero (l : Bytes) : uvarintDec (0 :: l) = .ok (0, 1) := by
+  simp [uvarintDec, uvarintDecAux]
+
+theorem readHeader_zero (w : Win) (l : Bytes) (hw : w.bytes = 0 :: l) : readHeader w = .error .magic := by
+  unfold readHeader
+  rw [hw, uvarintDec_zero]
+  simp [Win.map, bind, Except.bind, magicNumber, throw, throwThe, MonadExceptOf.throw]
+
+theorem fileWin_zero (n : Nat) : ∃ l, (fileWin (List.replicate (n + 1) 0)).bytes = 0 :: l := by
+  unfold fileWin
+  split
+  · exact ⟨List.replicate (min 35 n) 0, by simp [recordHeaderMax, List.replicate_succ, List.take_replicate]⟩
+  · exact ⟨_, rfl⟩
 
 theorem zero_tail_is_eof (c : Compression) (n : Nat) :
     readNextS c (List.replicate n 0) = .error .eof := by
-  sorry
+  cases n with
+  | zero =>
+    simp [readNextS, fileWin, recordHeaderMax, readHeader, uvarintDec, uvarintDecAux, Win.map, bind, Except.bind]
+  | succ n =>
+    obtain ⟨l, hl⟩ := fileWin_zero n
+    unfold readNextS
+    rw [readHeader_zero _ l hl, hl, uvarintDec_zero]
+    simp
+
+
+@[simp] theorem encAll_nil (c : Compression) : encAll c [] = [] := rfl
+
+@[simp] theorem encAll_cons (c : Compression) (r : GoBytes) (rs : List GoBytes) :
+    encAll c (r :: rs) = encRecord c r ++ encAll c rs := rfl
+
+theorem encAll_append (c : Compression) (xs ys : List GoBytes) :
+    encAll c (xs ++ ys) = encAll c xs ++ encAll c ys := by
+  simp [encAll]
+
+theorem fileHeader_length (v ct : Nat) : (fileHeader v ct).length = 8 := rfl
+
+theorem length_le_encAll (c : Compression) (rs : List GoBytes) : rs.length ≤ (encAll c rs).length := by
+  induction rs with
+  | nil => simp
+  | cons r rs ih =>
+    have := encRecord_pos c r
+    simp only [encAll_cons, List.length_cons, List.length_append]; omega
+
+theorem readAllS_enc (c : Compression) (hl : LawfulC c) (rs : List GoBytes) :
+    ∀ fuel, (∀ r ∈ rs, FitsRec c r) → rs.length < fuel → readAllS c fuel (encAll c rs) = (rs, .eof) := by
+  induction rs with
+  | nil =>
+    intro fuel _ hfu
+    cases fuel with
+    | zero => omega
+    | succ f =>
+      have := zero_tail_is_eof c 0
+      simp only [List.replicate_zero] at this
+      simp [readAllS, this]
+  | cons r rs ih =>
+    intro fuel hf hfu
+    cases fuel with
+    | zero => omega
+    | succ f =>
+      have h1 := readNextS_enc c r (encAll c rs) hl (hf r (by simp))
+      have h2 := ih f (fun x hx => hf x (by simp [hx])) (by simpa using hfu)
+      simp [readAllS, h1, h2]
+
+theorem seq_roundtrip (c : Compression) (ct : Nat) (rs : List GoBytes)
+    (hl : LawfulC c) (hf : ∀ r ∈ rs, FitsRec c r) :
+    readAll c (fileHeader currentVersion ct ++ encAll c rs) = (rs, .eof) := by
+  have hd : (fileHeader currentVersion ct ++ encAll c rs).drop fileHeaderSize = encAll c rs :=
+    List.drop_left' (fileHeader_length _ _)
+  unfold readAll
+  rw [hd]
+  apply readAllS_enc c hl rs _ hf
+  have := length_le_encAll c rs
+  simp only [List.length_append, fileHeader_length]; omega
+
+
+theorem readAt_enc (c : Compression) (pre : Bytes) (r : GoBytes) (rest : Bytes)
+    (hl : LawfulC c) (hf : FitsRec c r) :
+    readAt c (pre ++ (encRecord c r ++ rest)) pre.length = .ok r := by
+  have hpos := encRecord_pos c r
+  have h1 : ¬ pre.length > (pre ++ (encRecord c r ++ rest)).length := by simp
+  have h2 : ¬ pre.length = (pre ++ (encRecord c r ++ rest)).length := by
+    simp only [List.length_append]; omega
+  unfold readAt
+  simp only [h1, h2, if_false, List.drop_left]
+  cases r with
+  | none =>
+    simp only [encRecord, readHeader_mmapWin true 0 _ rest (by decide) hf]
+    simp
+  | some r =>
+    obtain ⟨hf1, hf2⟩ := hf
+    have hd := decodePayload_stored c r hl
+    simp only [encRecord, List.append_assoc, readHeader_mmapWin false r.length _ _ hf1 hf2,
+      expectedLen_enc, List.drop_left]
+    simp [hd, Except.map]
+    rw [if_neg (by omega), if_neg (by omega)]
+
+theorem readAt_offset (c : Compression) (ct : Nat) (rs : List GoBytes) (k : Nat) (hk : k < rs.length)
+    (hl : LawfulC c) (hf : ∀ r ∈ rs, FitsRec c r) :
+    readAt c (fileHeader currentVersion ct ++ encAll c rs) (offsetOf c rs k) = .ok rs[k] := by
+  have hsplit : rs = rs.take k ++ rs[k] :: rs.drop (k + 1) := by simp
+  have hfile : fileHeader currentVersion ct ++ encAll c rs =
+      (fileHeader currentVersion ct ++ encAll c (rs.take k)) ++
+        (encRecord c rs[k] ++ encAll c (rs.drop (k + 1))) := by
+    have := congrArg (encAll c) hsplit
+    rw [encAll_append, encAll_cons] at this
+    rw [this, List.append_assoc]
+  have hoff : offsetOf c rs k = (fileHeader currentVersion ct ++ encAll c (rs.take k)).length := by
+    simp [offsetOf, fileHeader_length, fileHeaderSize]
+  rw [hfile, hoff]
+  exact readAt_enc c _ _ _ hl (hf _ (by simp))
+
+
+theorem runWriter_write_snd (c : Compression) (w : WState) (r : GoBytes) (ops : List WOp) :
+    (runWriter c w (.write r :: ops)).2 = w.cur :: (runWriter c (w.write c r).1 ops).2 := rfl
+
+theorem runWriter_write_fst (c : Compression) (w : WState) (r : GoBytes) (ops : List WOp) :
+    (runWriter c w (.write r :: ops)).1 = (runWriter c (w.write c r).1 ops).1 := rfl
+
+theorem write_cur (c : Compression) (w : WState) (r : GoBytes) :
+    (w.write c r).1.cur = w.cur + (encRecord c r).length := rfl
+
+theorem runWriter_writes (c : Compression) (rs : List GoBytes) :
+    ∀ (pre : List GoBytes) (w : WState), w.cur = fileHeaderSize + (encAll c pre).length →
+      (runWriter c w (rs.map WOp.write)).2 =
+        (List.range rs.length).map (fun i => offsetOf c (pre ++ rs) (pre.length + i)) := by
+  induction rs with
+  | nil => intro pre w _; simp [runWriter]
+  | cons r rs ih =>
+    intro pre w hw
+    have h' : (w.write c r).1.cur = fileHeaderSize + (encAll c (pre ++ [r])).length := by
+      rw [write_cur, hw, encAll_append]; simp; omega
+    have := ih (pre ++ [r]) _ h'
+    rw [List.map_cons, runWriter_write_snd, this, List.length_cons, List.range_succ_eq_map,
+      List.map_cons, List.map_map]
+    congr 1
+    · simp [offsetOf, hw]
+    · apply List.map_congr_left
+      intro i _
+      simp only [Function.comp, List.append_assoc, List.singleton_append, List.length_append,
+        List.length_singleton]
+      congr 1; omega
+
+theorem write_offsets (c : Compression) (ct : Nat) (rs : List GoBytes) :
+    (runWriter c (WState.init ct) (rs.map WOp.write)).2 = (List.range rs.length).map (offsetOf c rs) := by
+  have := runWriter_writes c rs [] (WState.init ct) (by simp [WState.init])
+  simpa using this
+
+
+/-- writer invariant: the first `cur` bytes of the file are the header and the surviving records -/
+structure WInv (c : Compression) (ct : Nat) (rs : List GoBytes) (w : WState) : Prop where
+  cur : w.cur = fileHeaderSize + (encAll c rs).length
+  pre : w.file.take w.cur = fileHeader currentVersion ct ++ encAll c rs
+  le : w.cur ≤ w.file.length
+  big : w.file.length ≤ max w.largest w.cur
+
+theorem WInv_init (c : Compression) (ct : Nat) : WInv c ct [] (WState.init ct) := by
+  constructor
+  · simp [WState.init]
+  · exact List.take_of_length_le (by simp [WState.init, fileHeader_length, fileHeaderSize])
+  · simp [WState.init, fileHeader_length, fileHeaderSize]
+  · simp [WState.init, fileHeader_length, fileHeaderSize]
+
+theorem WInv_write (c : Compression) (ct : Nat) (rs : List GoBytes) (w : WState) (r : GoBytes)
+    (h : WInv c ct rs w) : WInv c ct (rs ++ [r]) (w.write c r).1 := by
+  obtain ⟨h1, h2, h3, h4⟩ := h
+  have hlt : (w.file.take w.cur).length = w.cur := by simp [List.length_take]; omega
+  have hflen : (overwrite w.file w.cur (encRecord c r)).length =
+      max w.file.length (w.cur + (encRecord c r).length) := by
+    simp only [overwrite, List.length_append, hlt, List.length_drop]; omega
+  constructor
+  · rw [write_cur, h1, encAll_append]; simp; omega
+  · show (overwrite w.file w.cur (encRecord c r)).take (w.cur + (encRecord c r).length) = _
+    rw [overwrite, List.take_left' (by rw [List.length_append, hlt]), h2, encAll_append]
+    simp
+  · show w.cur + (encRecord c r).length ≤ (overwrite w.file w.cur (encRecord c r)).length
+    rw [hflen]; omega
+  · show (overwrite w.file w.cur (encRecord c r)).length ≤
+      max (if r.isNone then w.largest else max w.largest (w.cur + (encRecord c r).length))
+        (w.cur + (encRecord c r).length)
+    rw [hflen]; split <;> omega
+
+theorem encAll_take_le (c : Compression) (rs : List GoBytes) (k : Nat) :
+    (encAll c (rs.take k)).length ≤ (encAll c rs).length := by
+  have := congrArg (fun l => (encAll c l).length) (List.take_append_drop k rs)
+  simp only [encAll_append, List.length_append] at this
+  omega
+
+theorem WInv_seek (c : Compression) (ct : Nat) (rs : List GoBytes) (w : WState) (k : Nat)
+    (h : WInv c ct rs w) :
+    ∃ w', w.seek (offsetOf c rs k) = .ok w' ∧ WInv c ct (rs.take k) w' := by
+  obtain ⟨h1, h2, h3, h4⟩ := h
+  have hle := encAll_take_le c rs k
+  have ha : ¬ offsetOf c rs k < fileHeaderSize := by simp [offsetOf]
+  have hb : ¬ offsetOf c rs k > w.cur := by simp only [offsetOf, h1]; omega
+  refine ⟨{ w with largest := max w.largest w.cur, cur := offsetOf c rs k }, by simp [WState.seek, ha, hb], ?_⟩
+  constructor
+  · rfl
+  · show w.file.take (offsetOf c rs k) = _
+    have hmin : offsetOf c rs k = min (offsetOf c rs k) w.cur := by omega
+    have hsp : encAll c rs = encAll c (rs.take k) ++ encAll c (rs.drop k) := by
+      rw [← encAll_append, List.take_append_drop]
+    rw [hmin, ← List.take_take, h2, hsp, ← List.append_assoc]
+    apply List.take_left'
+    simp [offsetOf, fileHeader_length, fileHeaderSize]
+  · show offsetOf c rs k ≤ w.file.length
+    omega
+  · show w.file.length ≤ max (max w.largest w.cur) (offsetOf c rs k)
+    omega
+
+theorem WInv_run (c : Compression) (ct : Nat) (ops : List AOp) :
+    ∀ (rs : List GoBytes) (w : WState), WInv c ct rs w → CutsOk rs ops →
+      WInv c ct (survivors rs ops) (runWriter c w (concretize c rs ops)).1 := by
+  induction ops with
+  | nil => intro rs w h _; exact h
+  | cons op ops ih =>
+    intro rs w h hc
+    cases op with
+    | write r =>
+      simp only [concretize, survivors, runWriter_write_fst]
+      exact ih _ _ (WInv_write c ct rs w r h) hc
+    | cut k =>
+      obtain ⟨w', hs, hi⟩ := WInv_seek c ct rs w k h
+      simp only [concretize, survivors, runWriter, hs]
+      exact ih _ _ hi hc.2
+
+theorem WInv_close (c : Compression) (ct : Nat) (rs : List GoBytes) (w : WState) (h : WInv c ct rs w) :
+    w.close = fileHeader currentVersion ct ++ encAll c rs ∧ w.cur = w.close.length := by
+  obtain ⟨h1, h2, h3, h4⟩ := h
+  have hc : w.close = w.file.take w.cur := by
+    unfold WState.close
+    split
+    · rfl
+    · rw [List.take_of_length_le]; omega
+  rw [hc, h2]
+  refine ⟨rfl, ?_⟩
+  rw [← h2, List.length_take]; omega
+
+theorem close_exact (c : Compression) (ct : Nat) (ops : List AOp) (hc : CutsOk [] ops) :
+    let w := (runWriter c (WState.init ct) (concretize c [] ops)).1
+    w.close = fileHeader currentVersion ct ++ encAll c (survivors [] ops) ∧ w.cur = w.close.length :=
+  WInv_close c ct _ _ (WInv_run c ct ops [] _ (WInv_init c ct) hc)
 
 end SST.Proofs
